@@ -100,12 +100,18 @@ class Inputs:
     def _mk_fl(self):
         return self.get('f').astype(self._np.float64) + self._rs(2).randint(0, 8, (self.size,) * 2) / 8.0
 
+    def _mk_integ(self):
+        # an integral image handed to SURF as such (is_integral=True): the array the native pyramid code reads
+        import mahotas.features.surf as _s
+        n = max(self.size, 40)
+        return _s.integral(self._rs(11).rand(n, n))
+
     def _mk_f32(self):
         return self.get('f').astype(self._np.float32)
 
     def _mk_m(self):
         np = self._np
-        m = np.zeros((self.size,) * 2, np.int32)
+        m = np.zeros((self.size,) * 2, np.int64)
         r = self._rs(3)
         for k in range(1, 5):
             m[r.randint(0, self.size), r.randint(0, self.size)] = k
@@ -216,6 +222,7 @@ def _kernels():
     reg('surf', ['f'], lambda I: mh.features.surf.surf(g(I, 'f')))
     reg('surf_integral', ['f'], lambda I: mh.features.surf.integral(g(I, 'f').copy()))
     reg('surf_interest_points', ['f'], lambda I: mh.features.surf.interest_points(g(I, 'f'), 2, 4, 1))
+    reg('surf_interest_points_integral', ['integ'], lambda I: mh.features.surf.interest_points(g(I, 'integ'), is_integral=True))
     reg('surf_descriptors', ['fl'], lambda I: mh.features.surf.descriptors(
         g(I, 'fl'), np.array([[I.size / 2., I.size / 2., 2., 10., 1.], [I.size / 3., I.size / 2., 2.5, 12., -1.]]),
         is_integral=False))
@@ -268,7 +275,7 @@ REGULAR = ['erode', 'erode_u8', 'erode_shared_bc', 'dilate', 'dilate_b', 'open',
            'remove_bordering', 'remove_regions', 'is_same_labeling', 'perimeter', 'convolve', 'convolve_u8',
            'convolve1d', 'gaussian_filter', 'median_filter', 'rank_filter', 'mean_filter', 'template_match', 'find',
            'daubechies', 'idaubechies', 'haar', 'ihaar', 'haralick', 'cooccurence', 'lbp', 'zernike_moments', 'surf',
-           'surf_integral', 'surf_interest_points', 'surf_descriptors', 'shift', 'zoom', 'spline_filter',
+           'surf_integral', 'surf_interest_points', 'surf_interest_points_integral', 'surf_descriptors', 'shift', 'zoom', 'spline_filter',
            'center_of_mass', 'center_of_mass_labels', 'convexhull', 'fill_convexhull', 'fill_polygon', 'fullhistogram',
            'otsu', 'rc', 'slic', 'euler']
 FAMILY = {}
@@ -877,7 +884,7 @@ def cases(rng, tier):
     # the same kernel on inputs of DIFFERENT shapes at the same time: exposes per-call tables or scratch buffers that
     # were made static / module-level (their content depends on the input's shape, e.g. strides, bounding boxes, grey
     # levels), which identical concurrent inputs can never show
-    always = ['thin', 'haralick', 'perimeter', 'cwatershed', 'label', 'distance', 'convolve', 'lbp', 'zernike_moments',
+    always = ['surf_interest_points_integral', 'thin', 'haralick', 'perimeter', 'cwatershed', 'label', 'distance', 'convolve', 'lbp', 'zernike_moments',
               'surf', 'median_filter', 'erode_shared_bc']
     extra = [k for k in REGULAR if k not in always]
     rng.shuffle(extra)
@@ -887,6 +894,13 @@ def cases(rng, tier):
         out.append(dict(kind='stress', threads=rng.choice([4, 8, 16]), shared=False, reps=dict(quick=4, thorough=20, search=8)[tier],
                         switch=1e-6 if rng.random() < 0.5 else None, reset_perimeter=(k == 'perimeter'),
                         calls=[[k, rng.randint(0, 10 ** 6), sz] for sz in sizes]))
+    # one SHARED read-only input hammered by many threads through a single kernel: the reference-count judge sees any
+    # wrapper built or copied by value inside a released region (helpers called per pixel / per seed)
+    for k in ['surf_interest_points_integral', 'cwatershed', 'erode_shared_bc', 'convolve', 'template_match', 'labeled_sum',
+              'center_of_mass_labels', 'surf_descriptors']:
+        if k in REGULAR:
+            out.append(dict(kind='stress', threads=rng.choice([8, 16]), shared=True, reps=dict(quick=6, thorough=40, search=10)[tier],
+                            switch=1e-6, reset_perimeter=False, calls=[[k, rng.randint(0, 10 ** 6), rng.choice([24, 40])]]))
     for m in range(nmix):
         size = rng.choice([8, 16, 24, 32, 48] + ([64, 96] if tier != 'quick' else []))
         ncalls = rng.randint(3, 8)
